@@ -4,10 +4,13 @@
    sum_j x_j |pattern_j>|flag=0> + g_m |last pattern>|flag=1> with x_j = U_j[0,1] g_j, g_(j+1) = U_j[1,1] g_j, g_0 = 1,
    provided no later pattern's control set is contained in an earlier pattern (executable premise `ordered_b`, implied by
    the Hamming-weight order, evaluated on every compared instance).  The runtime contract checks that the emitted U_j give
-   x_j = the requested amplitudes and g_m = 0.  The auxiliary-qubit ladder, merge and pivot are evaluated. *)
+   x_j = the requested amplitudes and g_m = 0.  C06_cvo_gates_aux is the same statement for the default mode WITH auxiliary
+   qubits, where the multi-controlled U is the ladder of Qiskit rccx gates (relative-phase Toffolis, semantics CvoGates.rccx)
+   over clean ancillas, the controlled U on the top ancilla and the reversed ladder: nothing is assumed ideal there, and all
+   ancillas are back in |0> (the right-hand side is supported on clean basis states).  Merge and pivot are evaluated. *)
 From Coq Require Import Reals List Bool Arith NArith.
 From Coquelicot Require Import Complex.
-From QV Require Import Sem Mat2 Toff2 Chain UcrPlaced TopDownWalk Cvoqram CvoLoop CvoModel CvoGates.
+From QV Require Import Sem Mat2 Toff2 Chain UcrPlaced TopDownWalk Cvoqram CvoLoop CvoModel CvoGates CvoAux.
 Import ListNotations.
 
 Theorem C06_cvo_step : forall (u : nat) (ctl : list nat), ~ In u ctl -> NoDup ctl ->
@@ -38,6 +41,15 @@ Theorem C06_cvo_gates : forall (U : nat -> mat2) (n : nat) (pats : list (list bo
      + remaining U 0 (map (ctl_of n) pats) (RtoC 1) * delta (sigma 0 (ctl_of n (last pats [])) b) (eu 0))%C.
 Proof. exact cvo_gates_ordered. Qed.
 Print Assumptions C06_cvo_gates.
+
+Theorem C06_cvo_gates_aux : forall (U : nat -> mat2) (n : nat) (pats : list (list bool)), pats <> [] ->
+  ordered_b (map (ctl_ofa n) pats) = true ->
+  forall b,
+  crun U (cvo_gates n true pats) ket0 b
+  = (loaded U 0 (map (ctl_ofa n) pats) (RtoC 1) (sigma 0 (ctl_ofa n (last pats [])) b)
+     + remaining U 0 (map (ctl_ofa n) pats) (RtoC 1) * delta (sigma 0 (ctl_ofa n (last pats [])) b) (eu 0))%C.
+Proof. exact cvo_gates_aux_ordered. Qed.
+Print Assumptions C06_cvo_gates_aux.
 
 Example ex_ordered : ordered_b (map (ctl_of 3) [[true; false; false]; [false; true; false]; [false; true; true]]) = true.
 Proof. vm_compute. reflexivity. Qed.
